@@ -367,3 +367,54 @@ def c03_r5(ctx):
                     bad.append(norm.stmt_text(n.ast))
     ctx.ob(ci, not bad, "the file handle is closed in __init__ only on the memory-mapped branch",
            detail="unguarded: %s" % bad if bad else "%d guarded close site(s)" % n_close)
+
+
+# lazily initialised caches of immutable per-segment resources (each confirmed by reading): (class, method) -> {attr: reason}
+READER_STATE_OK = {
+    ("codec.whoosh3.W3PerDocReader", "column_reader"): {"_colfiles[]": "cache of (file, offset, length) of a column file; the files of a segment never change"},
+    ("codec.whoosh3.W3PerDocReader", "_cached_reader"): {"_readers[]": "cache of column readers over immutable column files"},
+    ("codec.whoosh3.W3PerDocReader", "_prep_vectors"): {"_vpostfile": "lazy open of the immutable vector postings file"},
+    ("reading.MultiReader", "add_reader"): {"base": "construction helper used only while the reader list is being built",
+                                            "readers.append()": "same construction helper", "doc_offsets.append()": "same construction helper"},
+    ("searching.Searcher", "idf"): {"_idf_cache[]": "memo of a value that depends only on the (immutable) reader and the term"},
+    ("searching.Searcher", "refresh"): {"is_closed": "the searcher hands its reader over to the refreshed searcher and retires itself"},
+}
+READER_BASES = ("reading.IndexReader", "codec.base.PerDocumentReader", "codec.base.TermsReader", "searching.Searcher",
+                "codec.base.Automata")
+
+
+@rule("C03", "R7", "K3", "read APIs keep no per-call state on the shared reader object",
+      min_instances=12, also=("C19",),
+      clause="No method of a reader/searcher class outside __init__/close stores to self (attributes or items of "
+             "attribute containers) except the reviewed lazy caches of immutable segment resources: cursors, "
+             "matchers and iteration state belong to the call, so that concurrent or interleaved lookups on one "
+             "reader do not disturb each other and a held reader keeps answering for its generation.")
+def c03_r7(ctx):
+    prog = ctx.prog
+    from .c15 import _self_stores
+    seen = set()
+    n = 0
+    for bname in READER_BASES:
+        base = prog.cls(bname)
+        for cls in [base] + prog.subclasses(base, strict=True):
+            if cls.qualname in seen:
+                continue
+            seen.add(cls.qualname)
+            n += 1
+            wrote = []
+            for m, f in cls.methods.items():
+                if m in ("__init__", "__setstate__", "close", "__exit__", "__del__"):
+                    continue
+                ctx.saw(f)
+                allowed = READER_STATE_OK.get((cls.short, m), {})
+                for attr, node in _self_stores(f):
+                    if attr not in allowed:
+                        wrote.append("%s() stores self.%s" % (m, attr))
+            ctx.ob(cls, not wrote, "no read method writes to self (outside the reviewed lazy caches)",
+                   detail="; ".join(sorted(set(wrote))) if wrote else "", loc=cls.loc)
+    for (cn, m) in READER_STATE_OK:
+        c = prog.cls(cn)
+        if m not in c.methods:
+            raise AnalysisError("reviewed reader cache site %s.%s vanished; re-confirm the table" % (cn, m))
+    if n < 12:
+        raise AnalysisError("only %d reader classes found" % n)
